@@ -138,7 +138,7 @@ ADDED = {
  "C03": ("; Templates.tla (template expansion recursion: NoReentry, Verdict, Terminates under fairness) model-checked and every reference graph over 3 templates replayed on NewSchema; a Go runtime fatal error inside omniparser code is a violation (RepoCrash)", ""),
  "C04": ("; qualified-name renderings (prefixes), family 'nested' (rejected candidate followed by a container with deeper candidates), XPathSplit.tla for the last-predicate splitter", ""),
  "C05": ("; record shapes (one named unit / two units of any name / header..first footer) and a last-unit component in every delivered instance, bound to csv2, fixedlength2 and the scripted reader", ""),
- "C06": ("; leading optional header/footer declaration whose look-ahead may fail, cached line text surviving popFrontLinesBuf; buffer-boundary sweep; two fixed-length payload renderings", ""),
+ "C06": ("; leading optional header/footer declaration whose look-ahead may fail, cached line text surviving popFrontLinesBuf; buffer-boundary sweep; two fixed-length payload renderings; FixedLegacy.tla for the by_header_footer envelopes of the legacy fixed-length reader", ""),
  "C07": ("; a missing declared element must be a fatal error (class, not wording)", ""),
  "C08": ("; XMLTree.tla: namespace scoping with three designs of URI -> prefix (declaration stack = the code; both map designs refuted by TLC, counterexamples reproduced on the real reader and repaired: 980d548, c2dca8b), every unambiguous document of 2/3 elements replayed; reference DOM from raw decoder tokens with its own scoping", ""),
  "C10": ("; bulk concatenation rounds (hundreds / thousands of records across buffer refills); failure kinds incl. throwing scripts", ""),
